@@ -538,6 +538,9 @@ func callSSA(i *interpreter, caller *frame, callpos token.Pos, fn *ssa.Function,
 		if ext := pkgStub(fn); ext != nil {
 			return ext(fr, args)
 		}
+		if ext := genericAtomic(name); ext != nil {
+			return ext(fr, args)
+		}
 		if strings.HasPrefix(fn.Name(), "nondet") || strings.HasPrefix(fn.Name(), "verif") {
 			if h := harnessFn(fn.Name()); h != nil {
 				return h(fr, args)
